@@ -16,7 +16,7 @@ use std::cell::RefCell;
 use std::panic::{catch_unwind, AssertUnwindSafe};
 use std::sync::atomic::{AtomicBool, AtomicU64, Ordering};
 use std::sync::mpsc::{channel, Receiver, Sender};
-use std::sync::Mutex;
+use std::sync::{Arc, Mutex};
 
 pub const ENGINE_B: u64 = 0xB;
 
@@ -265,7 +265,7 @@ pub struct SimStream {
     /// (kind, id) of the token delivered for position i of the effective stream
     pub delivered: Vec<(usize, u64)>,
     reenter: Option<(usize, Plan)>,
-    run_parse: Option<fn(&mut SimStream) -> Outcome>,
+    run_parse: Option<ParseFn>,
     inner: Vec<(Plan, Obs)>,
     gate: Option<Gate>,
 }
@@ -302,10 +302,10 @@ impl SimStream {
         if let Some((k, _)) = &self.reenter {
             if *k == self.pulls {
                 let (_, inner_plan) = self.reenter.take().unwrap();
-                if let Some(rp) = self.run_parse {
+                if let Some(rp) = self.run_parse.clone() {
                     ev(Ev::ReenterBegin(self.pulls));
                     let outer_log = take_log();
-                    let obs = run_activation(rp, &inner_plan, None, None, 1_000_000);
+                    let obs = run_activation(&rp, &inner_plan, None, None, 1_000_000);
                     restore_log(outer_log);
                     ev(Ev::ReenterEnd(self.pulls));
                     self.inner.push((inner_plan, obs.0));
@@ -404,10 +404,16 @@ pub enum Outcome {
     ErrNone,
 }
 
+/// The parser under test as seen by the simulator: normally the emitted `parse` behind the
+/// generated glue; in tables-only mode an interpreter of the emitted tables.
+pub type ParseFn = Arc<dyn Fn(&mut SimStream) -> Outcome + Send + Sync>;
+
 pub struct Glue {
     pub model_json: &'static str,
     pub src_kiki: &'static str,
-    pub run_parse: fn(&mut SimStream) -> Outcome,
+    /// the emitted module text (for the table interpreter that shadows the real parser)
+    pub emitted: &'static str,
+    pub run_parse: ParseFn,
 }
 
 // ---------------------------------------------------------------- execution
@@ -463,7 +469,7 @@ impl Obs {
 /// Runs one activation on the current thread; returns its observation and the
 /// observations of re-entrant activations started from inside its producer.
 fn run_activation(
-    run_parse: fn(&mut SimStream) -> Outcome,
+    run_parse: &ParseFn,
     plan: &Plan,
     reenter: Option<(usize, Plan)>,
     gate: Option<Gate>,
@@ -472,7 +478,7 @@ fn run_activation(
     let _ = take_log();
     let mut stream = SimStream::new(plan, id_base);
     stream.reenter = reenter;
-    stream.run_parse = Some(run_parse);
+    stream.run_parse = Some(run_parse.clone());
     stream.gate = gate;
     let r = catch_unwind(AssertUnwindSafe(|| run_parse(&mut stream)));
     ev(Ev::ParseReturned);
@@ -546,11 +552,12 @@ pub fn execute(glue: &Glue, sc: &Scenario) -> ScenarioObs {
     WATCH_IN_RUN.store(true, Ordering::SeqCst);
     let out = match &sc.b {
         None => {
-            let (a, inner) = run_activation(glue.run_parse, &sc.a, sc.reenter.clone(), None, 0);
+            let (a, inner) = run_activation(&glue.run_parse, &sc.a, sc.reenter.clone(), None, 0);
             ScenarioObs { a, inner, b: None, schedule_used: vec![] }
         }
         Some(bplan) => {
-            let rp = glue.run_parse;
+            let rp = glue.run_parse.clone();
+            let rp2 = glue.run_parse.clone();
             let (arrive_tx, arrive_rx) = channel::<GateMsg>();
             let (ga_tx, ga_rx) = channel::<()>();
             let (gb_tx, gb_rx) = channel::<()>();
@@ -567,14 +574,14 @@ pub fn execute(glue: &Glue, sc: &Scenario) -> ScenarioObs {
                     // initial gate: do not start before the scheduler says so
                     let _ = gate_a.arrive.send(GateMsg::AtGate(0));
                     let _ = gate_a.grant.recv();
-                    let r = run_activation(rp, &aplan, reenter, Some(gate_a), 0);
+                    let r = run_activation(&rp, &aplan, reenter, Some(gate_a), 0);
                     let _ = fin_a.send(GateMsg::Finished(0));
                     r
                 });
                 let hb = scope.spawn(move || {
                     let _ = gate_b.arrive.send(GateMsg::AtGate(1));
                     let _ = gate_b.grant.recv();
-                    let r = run_activation(rp, &bplan, None, Some(gate_b), 2_000_000);
+                    let r = run_activation(&rp2, &bplan, None, Some(gate_b), 2_000_000);
                     let _ = fin_b.send(GateMsg::Finished(1));
                     r
                 });
@@ -1204,7 +1211,7 @@ fn start_watchdog(out_path: Option<String>) {
     });
 }
 
-fn self_check(g: &Grammar, an: &Analysis, reference: &Reference, seed: u64, item: u64) -> Result<usize, String> {
+pub fn self_check(g: &Grammar, an: &Analysis, reference: &Reference, seed: u64, item: u64) -> Result<usize, String> {
     let mut rng = Rng::derive(seed, &[ENGINE_B, item, 0xC0FFEE]);
     let mut done = 0;
     if !reference.productive {
@@ -1278,6 +1285,273 @@ fn exec_json(reference: &Reference, sc: &Scenario, so: &ScenarioObs) -> J {
     J::obj().set("plan", sc.to_json()).set("reference", reference_j).set("observed", observed)
 }
 
+/// Parameters of one exploration of one grammar.
+pub struct Explore {
+    pub seed: u64,
+    pub item: u64,
+    pub n_ff: usize,
+    pub n_f: usize,
+    pub from: usize,
+    pub maxlen: usize,
+    pub emitted_states: usize,
+    pub self_checks: usize,
+    /// at most this many violations are minimised and written out per grammar
+    pub max_violations: usize,
+}
+
+/// Runs `n_ff` fault-free and `n_f` fault-injecting scenarios against `glue.run_parse` and
+/// returns the grammar's summary. If `shadow` is given (the table interpreter), activation A of
+/// every scenario is also executed on it and the two observations are compared
+/// (`shadow_disagreements`, expected 0: the interpreter mirrors the emitted driver).
+pub fn explore(
+    glue: &Glue,
+    g: &Grammar,
+    an: &Analysis,
+    reference: &Reference,
+    params: &Explore,
+    shadow: Option<&ParseFn>,
+) -> J {
+    let (seed, item, n_ff, n_f, from, maxlen, emitted_states, sc_done) =
+        (params.seed, params.item, params.n_ff, params.n_f, params.from, params.maxlen, params.emitted_states, params.self_checks);
+    let mut shadow_runs = 0usize;
+    let mut shadow_disagreements = 0usize;
+    let mut shadow_sample: Option<J> = None;
+    let w = Workload { g, an, reference, maxlen };
+    let mut digest = Fnv::new();
+    let mut notes = Notes::default();
+    let mut distinct = std::collections::HashSet::new();
+    let mut distinct_nonsentence = std::collections::HashSet::new();
+    let mut violations: Vec<J> = vec![];
+    let mut samples: Vec<J> = vec![];
+    let mut history: std::collections::VecDeque<Plan> = std::collections::VecDeque::new();
+    let mut c = std::collections::BTreeMap::<&'static str, usize>::new();
+    let bump = |k: &'static str, c: &mut std::collections::BTreeMap<&'static str, usize>| {
+        *c.entry(k).or_insert(0) += 1;
+    };
+    let total = n_ff + n_f;
+    for r in 0..total {
+        let faulty = r >= n_ff;
+        let run_no = (from + r) as u64;
+        let mut rng = Rng::derive(seed, &[ENGINE_B, item, run_no, faulty as u64]);
+        let d = w.draw(&mut rng, faulty);
+        let sc = d.sc;
+        let so = execute(glue, &sc);
+        let judged = check_scenario(reference, &sc, &so, &mut notes);
+        if let Some(sh) = shadow {
+            // the table interpreter runs A's plan on its own; activations are independent, so
+            // its observation must equal the real parser's observation of A
+            let (o, _) = run_activation(sh, &sc.a, None, None, 0);
+            shadow_runs += 1;
+            if o.tag != so.a.tag || o.pulls != so.a.pulls || o.pulls_after_end != so.a.pulls_after_end {
+                shadow_disagreements += 1;
+                if shadow_sample.is_none() {
+                    shadow_sample = Some(
+                        J::obj()
+                            .set("plan", sc.a.to_json())
+                            .set("real", so.a.to_json())
+                            .set("table_interpreter", o.to_json()),
+                    );
+                }
+            }
+        }
+        let v = judged.va;
+        let x = &so.a;
+        let plan = &sc.a;
+        // event log digest
+        digest.u64(run_no);
+        digest.str(&sc.to_json().to_string());
+        digest.str(&x.tag.to_json().to_string());
+        digest.u64(x.pulls as u64);
+        for e in &x.events {
+            digest.str(&format!("{:?}", e));
+        }
+        for (_, o) in &so.inner {
+            digest.str(&o.tag.to_json().to_string());
+            for e in &o.events {
+                digest.str(&format!("{:?}", e));
+            }
+        }
+        if let Some(o) = &so.b {
+            digest.str(&o.tag.to_json().to_string());
+            for e in &o.events {
+                digest.str(&format!("{:?}", e));
+            }
+            for s in &so.schedule_used {
+                digest.u64(*s as u64);
+            }
+        }
+        let pd = sc.digest();
+        distinct.insert(pd);
+        bump(if faulty { "runs_faulty" } else { "runs_faultfree" }, &mut c);
+        match d.origin {
+            "derivation" => bump("origin_derivation", &mut c),
+            "random" => bump("origin_random", &mut c),
+            "prefix" => bump("origin_prefix", &mut c),
+            _ => bump("origin_lr_walk", &mut c),
+        }
+        let n = plan.effective().len();
+        if v.sentence {
+            bump("sentence", &mut c);
+        } else {
+            distinct_nonsentence.insert(pd);
+            match v.first_bad {
+                Some(0) => bump("first_bad_at_0", &mut c),
+                Some(i) if i + 1 == n => bump("first_bad_at_last", &mut c),
+                Some(_) => bump("first_bad_in_middle", &mut c),
+                None => bump("viable_prefix_err_none", &mut c),
+            }
+            if v.first_bad.is_none() && n == 0 {
+                bump("empty_input_not_sentence", &mut c);
+            }
+            if let Some(i) = v.first_bad {
+                if i >= 16 {
+                    bump("probe_first_bad_beyond_16_tokens", &mut c);
+                }
+            }
+        }
+        // faults that actually took effect
+        let needed = needed_pulls(&v, n);
+        if let Some(k) = plan.eof_at {
+            if x.pulls > k {
+                bump("fired_eof_at", &mut c);
+                if v.first_bad.is_none() && !v.sentence {
+                    bump("probe_eof_inside_construct", &mut c);
+                }
+            }
+        }
+        if !plan.resume.is_empty() {
+            bump("armed_resume_after_eof", &mut c);
+            if x.events.iter().any(|e| matches!(e, Ev::End)) {
+                bump("fired_resume_armed_and_end_reached", &mut c);
+            }
+            if x.pulls_after_end > 0 {
+                bump("observed_pull_after_end", &mut c);
+            }
+        }
+        if let Some(p) = plan.panic_at {
+            if p <= needed {
+                bump("fired_panic_reached", &mut c);
+                if x.events.iter().any(|e| matches!(e, Ev::Drop(_))) {
+                    bump("probe_panic_with_tokens_on_stack", &mut c);
+                }
+            } else {
+                bump("armed_panic_tripwire", &mut c);
+            }
+        }
+        if sc.reenter.is_some() || !so.inner.is_empty() {
+            if so.inner.is_empty() {
+                bump("armed_reenter_not_reached", &mut c);
+            } else {
+                bump("fired_reenter", &mut c);
+            }
+        }
+        if so.b.is_some() {
+            bump("fired_second_activation", &mut c);
+            let switches = so.schedule_used.windows(2).filter(|w| w[0] != w[1]).count();
+            if switches >= 2 {
+                bump("probe_interleaved_with_2plus_switches", &mut c);
+            }
+        }
+        if x.size_hint_calls > 0 {
+            bump("size_hint_called", &mut c);
+        }
+        match plan.hint {
+            Hint::Default => {}
+            _ => bump("nondefault_size_hint", &mut c),
+        }
+        match &x.tag {
+            Tag::Ok => bump("result_ok", &mut c),
+            Tag::ErrSome { .. } => bump("result_err_some", &mut c),
+            Tag::ErrNone => bump("result_err_none", &mut c),
+            Tag::ProducerPanic(_) => bump("result_producer_panic", &mut c),
+            Tag::OtherPanic(_) => bump("result_other_panic", &mut c),
+        }
+        if samples.len() < 3 && !v.sentence && (r % 7 == 3 || r + 1 == total) {
+            samples.push(
+                exec_json(reference, &sc, &so)
+                    .set("origin", J::str(d.origin))
+                    .set("edits", J::Arr(d.edits.iter().map(|e| J::str(e)).collect())),
+            );
+        }
+        if let Some(viol) = judged.violation {
+            if violations.len() < params.max_violations {
+                let (small, steps) = shrink(glue, reference, &sc, viol.class, 3000);
+                let sso = execute(glue, &small);
+                let mut n2 = Notes::default();
+                let sviol = check_scenario(reference, &small, &sso, &mut n2).violation;
+                let mut with_history = sc.clone();
+                with_history.history = history.iter().cloned().collect();
+                violations.push(
+                    J::obj()
+                        .set("class", J::str(viol.class))
+                        .set("activation", J::str(viol.who))
+                        .set("detail", J::str(&viol.detail))
+                        .set("run", J::Int(run_no as i128))
+                        .set("faulty", J::Bool(faulty))
+                        .set("original", exec_json(reference, &with_history, &so))
+                        .set("minimised", exec_json(reference, &small, &sso))
+                        .set(
+                            "minimised_detail",
+                            J::str(&sviol.map(|v| v.detail).unwrap_or_default()),
+                        )
+                        .set("shrink_steps", J::uz(steps)),
+                );
+            } else {
+                bump("violations_not_minimised", &mut c);
+            }
+            bump("violations", &mut c);
+        }
+        history.push_back(sc.a.clone());
+        if history.len() > 24 {
+            history.pop_front();
+        }
+    }
+    let mut counters = J::obj();
+    for (k, v) in &c {
+        counters.put(k, J::uz(*v));
+    }
+    let mut shape = J::obj();
+    for (k, v) in an.shape() {
+        shape.put(k, J::Bool(if k == "ten_or_more_terminals" { g.terms.len() >= 10 } else { v }));
+    }
+    let emitted_states = emitted_states;
+    shape.put("emitted_states", J::uz(emitted_states));
+    shape.put(
+        "lalr_merged_distinct_lr1_states",
+        J::Bool(reference.lr1_states > emitted_states && emitted_states > 0),
+    );
+    let summary = J::obj()
+        .set("item", J::Int(item as i128))
+        .set("family", J::str(&g.family))
+        .set("shape", shape)
+        .set("all_productive", J::Bool(reference.productive))
+        .set("lr1_states", J::uz(reference.lr1_states))
+        .set("runs", J::uz(total))
+        .set("self_checks", J::uz(sc_done))
+        .set("distinct_plans", J::uz(distinct.len()))
+        .set("distinct_nonsentence_plans", J::uz(distinct_nonsentence.len()))
+        .set("digest", J::str(&format!("{:016x}", digest.0)))
+        .set("counters", counters)
+        .set(
+            "notes",
+            J::obj()
+                .set("sentence_rejected", J::uz(notes.sentence_rejected))
+                .set("sentence_overpull", J::uz(notes.sentence_overpull))
+                .set("sentence_panic", J::uz(notes.sentence_panic))
+                .set("leaked_tokens_runs", J::uz(notes.leaked_tokens))
+                .set("producer_not_dropped_runs", J::uz(notes.producer_not_dropped))
+                .set("producer_panic_swallowed", J::uz(notes.producer_panic_swallowed))
+                .set("producer_panic_propagated", J::uz(notes.producer_panic_propagated))
+                .set("underpull_correct_result", J::uz(notes.underpull_correct_result)),
+        )
+        .set("samples", J::Arr(samples))
+        .set("violations", J::Arr(violations));
+    summary
+        .set("shadow_runs", J::uz(shadow_runs))
+        .set("shadow_disagreements", J::uz(shadow_disagreements))
+        .set("shadow_disagreement_sample", shadow_sample.unwrap_or(J::Null))
+}
+
 pub fn main(glue: &Glue) {
     let args: Vec<String> = std::env::args().collect();
     if args.len() < 2 {
@@ -1312,219 +1586,22 @@ pub fn main(glue: &Glue) {
                     std::process::exit(2);
                 }
             };
-            let w = Workload { g: &g, an: &an, reference: &reference, maxlen };
-            let mut digest = Fnv::new();
-            let mut notes = Notes::default();
-            let mut distinct = std::collections::HashSet::new();
-            let mut distinct_nonsentence = std::collections::HashSet::new();
-            let mut violations: Vec<J> = vec![];
-            let mut samples: Vec<J> = vec![];
-            let mut history: std::collections::VecDeque<Plan> = std::collections::VecDeque::new();
-            let mut c = std::collections::BTreeMap::<&'static str, usize>::new();
-            let bump = |k: &'static str, c: &mut std::collections::BTreeMap<&'static str, usize>| {
-                *c.entry(k).or_insert(0) += 1;
-            };
-            let total = n_ff + n_f;
-            for r in 0..total {
-                let faulty = r >= n_ff;
-                let run_no = (from + r) as u64;
-                let mut rng = Rng::derive(seed, &[ENGINE_B, item, run_no, faulty as u64]);
-                let d = w.draw(&mut rng, faulty);
-                let sc = d.sc;
-                let so = execute(glue, &sc);
-                let judged = check_scenario(&reference, &sc, &so, &mut notes);
-                let v = judged.va;
-                let x = &so.a;
-                let plan = &sc.a;
-                // event log digest
-                digest.u64(run_no);
-                digest.str(&sc.to_json().to_string());
-                digest.str(&x.tag.to_json().to_string());
-                digest.u64(x.pulls as u64);
-                for e in &x.events {
-                    digest.str(&format!("{:?}", e));
-                }
-                for (_, o) in &so.inner {
-                    digest.str(&o.tag.to_json().to_string());
-                    for e in &o.events {
-                        digest.str(&format!("{:?}", e));
-                    }
-                }
-                if let Some(o) = &so.b {
-                    digest.str(&o.tag.to_json().to_string());
-                    for e in &o.events {
-                        digest.str(&format!("{:?}", e));
-                    }
-                    for s in &so.schedule_used {
-                        digest.u64(*s as u64);
-                    }
-                }
-                let pd = sc.digest();
-                distinct.insert(pd);
-                bump(if faulty { "runs_faulty" } else { "runs_faultfree" }, &mut c);
-                match d.origin {
-                    "derivation" => bump("origin_derivation", &mut c),
-                    "random" => bump("origin_random", &mut c),
-                    "prefix" => bump("origin_prefix", &mut c),
-                    _ => bump("origin_lr_walk", &mut c),
-                }
-                let n = plan.effective().len();
-                if v.sentence {
-                    bump("sentence", &mut c);
-                } else {
-                    distinct_nonsentence.insert(pd);
-                    match v.first_bad {
-                        Some(0) => bump("first_bad_at_0", &mut c),
-                        Some(i) if i + 1 == n => bump("first_bad_at_last", &mut c),
-                        Some(_) => bump("first_bad_in_middle", &mut c),
-                        None => bump("viable_prefix_err_none", &mut c),
-                    }
-                    if v.first_bad.is_none() && n == 0 {
-                        bump("empty_input_not_sentence", &mut c);
-                    }
-                    if let Some(i) = v.first_bad {
-                        if i >= 16 {
-                            bump("probe_first_bad_beyond_16_tokens", &mut c);
-                        }
-                    }
-                }
-                // faults that actually took effect
-                let needed = needed_pulls(&v, n);
-                if let Some(k) = plan.eof_at {
-                    if x.pulls > k {
-                        bump("fired_eof_at", &mut c);
-                        if v.first_bad.is_none() && !v.sentence {
-                            bump("probe_eof_inside_construct", &mut c);
-                        }
-                    }
-                }
-                if !plan.resume.is_empty() {
-                    bump("armed_resume_after_eof", &mut c);
-                    if x.events.iter().any(|e| matches!(e, Ev::End)) {
-                        bump("fired_resume_armed_and_end_reached", &mut c);
-                    }
-                    if x.pulls_after_end > 0 {
-                        bump("observed_pull_after_end", &mut c);
-                    }
-                }
-                if let Some(p) = plan.panic_at {
-                    if p <= needed {
-                        bump("fired_panic_reached", &mut c);
-                        if x.events.iter().any(|e| matches!(e, Ev::Drop(_))) {
-                            bump("probe_panic_with_tokens_on_stack", &mut c);
-                        }
-                    } else {
-                        bump("armed_panic_tripwire", &mut c);
-                    }
-                }
-                if sc.reenter.is_some() || !so.inner.is_empty() {
-                    if so.inner.is_empty() {
-                        bump("armed_reenter_not_reached", &mut c);
-                    } else {
-                        bump("fired_reenter", &mut c);
-                    }
-                }
-                if so.b.is_some() {
-                    bump("fired_second_activation", &mut c);
-                    let switches = so.schedule_used.windows(2).filter(|w| w[0] != w[1]).count();
-                    if switches >= 2 {
-                        bump("probe_interleaved_with_2plus_switches", &mut c);
-                    }
-                }
-                if x.size_hint_calls > 0 {
-                    bump("size_hint_called", &mut c);
-                }
-                match plan.hint {
-                    Hint::Default => {}
-                    _ => bump("nondefault_size_hint", &mut c),
-                }
-                match &x.tag {
-                    Tag::Ok => bump("result_ok", &mut c),
-                    Tag::ErrSome { .. } => bump("result_err_some", &mut c),
-                    Tag::ErrNone => bump("result_err_none", &mut c),
-                    Tag::ProducerPanic(_) => bump("result_producer_panic", &mut c),
-                    Tag::OtherPanic(_) => bump("result_other_panic", &mut c),
-                }
-                if samples.len() < 3 && !v.sentence && (r % 7 == 3 || r + 1 == total) {
-                    samples.push(
-                        exec_json(&reference, &sc, &so)
-                            .set("origin", J::str(d.origin))
-                            .set("edits", J::Arr(d.edits.iter().map(|e| J::str(e)).collect())),
-                    );
-                }
-                if let Some(viol) = judged.violation {
-                    if violations.len() < 3 {
-                        let (small, steps) = shrink(glue, &reference, &sc, viol.class, 3000);
-                        let sso = execute(glue, &small);
-                        let mut n2 = Notes::default();
-                        let sviol = check_scenario(&reference, &small, &sso, &mut n2).violation;
-                        let mut with_history = sc.clone();
-                        with_history.history = history.iter().cloned().collect();
-                        violations.push(
-                            J::obj()
-                                .set("class", J::str(viol.class))
-                                .set("activation", J::str(viol.who))
-                                .set("detail", J::str(&viol.detail))
-                                .set("run", J::Int(run_no as i128))
-                                .set("faulty", J::Bool(faulty))
-                                .set("original", exec_json(&reference, &with_history, &so))
-                                .set("minimised", exec_json(&reference, &small, &sso))
-                                .set(
-                                    "minimised_detail",
-                                    J::str(&sviol.map(|v| v.detail).unwrap_or_default()),
-                                )
-                                .set("shrink_steps", J::uz(steps)),
-                        );
-                    } else {
-                        bump("violations_not_minimised", &mut c);
-                    }
-                    bump("violations", &mut c);
-                }
-                history.push_back(sc.a.clone());
-                if history.len() > 24 {
-                    history.pop_front();
-                }
-            }
-            let mut counters = J::obj();
-            for (k, v) in &c {
-                counters.put(k, J::uz(*v));
-            }
-            let mut shape = J::obj();
-            for (k, v) in an.shape() {
-                shape.put(k, J::Bool(if k == "ten_or_more_terminals" { g.terms.len() >= 10 } else { v }));
-            }
             let emitted_states = model.get("emitted_states").and_then(|x| x.as_usize()).unwrap_or(0);
-            shape.put("emitted_states", J::uz(emitted_states));
-            shape.put(
-                "lalr_merged_distinct_lr1_states",
-                J::Bool(reference.lr1_states > emitted_states && emitted_states > 0),
+            let shadow: Option<ParseFn> = match crate::tables::TableParser::from_emitted(glue.emitted, &g) {
+                Ok(tp) => Some(tp.into_parse_fn()),
+                Err(e) => {
+                    eprintln!("note: table interpreter unavailable for this grammar: {e}");
+                    None
+                }
+            };
+            let summary = explore(
+                glue,
+                &g,
+                &an,
+                &reference,
+                &Explore { seed, item, n_ff, n_f, from, maxlen, emitted_states, self_checks: sc_done, max_violations: 3 },
+                shadow.as_ref(),
             );
-            let summary = J::obj()
-                .set("item", J::Int(item as i128))
-                .set("family", J::str(&g.family))
-                .set("shape", shape)
-                .set("all_productive", J::Bool(reference.productive))
-                .set("lr1_states", J::uz(reference.lr1_states))
-                .set("runs", J::uz(total))
-                .set("self_checks", J::uz(sc_done))
-                .set("distinct_plans", J::uz(distinct.len()))
-                .set("distinct_nonsentence_plans", J::uz(distinct_nonsentence.len()))
-                .set("digest", J::str(&format!("{:016x}", digest.0)))
-                .set("counters", counters)
-                .set(
-                    "notes",
-                    J::obj()
-                        .set("sentence_rejected", J::uz(notes.sentence_rejected))
-                        .set("sentence_overpull", J::uz(notes.sentence_overpull))
-                        .set("sentence_panic", J::uz(notes.sentence_panic))
-                        .set("leaked_tokens_runs", J::uz(notes.leaked_tokens))
-                        .set("producer_not_dropped_runs", J::uz(notes.producer_not_dropped))
-                        .set("producer_panic_swallowed", J::uz(notes.producer_panic_swallowed))
-                        .set("producer_panic_propagated", J::uz(notes.producer_panic_propagated))
-                        .set("underpull_correct_result", J::uz(notes.underpull_correct_result)),
-                )
-                .set("samples", J::Arr(samples))
-                .set("violations", J::Arr(violations));
             let text = summary.to_string();
             match out {
                 Some(p) => std::fs::write(p, text).expect("write summary"),
